@@ -164,7 +164,7 @@ func init() {
 		Run: func(c *Ctx) {
 			maxLen := 5
 			if c.Thorough() {
-				maxLen = 6
+				maxLen = 7
 			}
 			total := c16Total(maxLen)
 			const batch = 1 << 17
